@@ -779,14 +779,17 @@ class x86allmncs(object):
             ad = tuple(self.modrm_key(ad))
             if not ad in self.fd_afs:
                 self.fd_afs[ad] = []
-            self.fd_afs[ad].append((i, None))
+            # the reverse table holds ModRM bytes with an empty reg field
+            if not (i&0xC7, None) in self.fd_afs[ad]:
+                self.fd_afs[ad].append((i&0xC7, None))
             # XMM
             ad = {x86_afs.ad:False, x86_afs.reg_xmm_base+(i%8):1}
             self.db_afs_xmm[i] = ad
             ad = tuple(self.modrm_key(ad))
             if not ad in self.fd_afs:
                 self.fd_afs[ad] = []
-            self.fd_afs[ad].append((i, None))
+            if not (i&0xC7, None) in self.fd_afs[ad]:
+                self.fd_afs[ad].append((i&0xC7, None))
 
         #16bit
         self.db_afs_16 = [None for i in range(0x100)]
